@@ -39,6 +39,8 @@ WITNESS = {
                                  "Deviations+": ["D-C38-put-drops-tags"]},
     "D-C38-complete-drops-conditions": {"Ops": ["CreateBucket", "CreateUpload", "CompleteUpload"], "MaxClock": "4"},
     "D-C38-append-not-implemented": {"Ops": ["CreateBucket", "AppendObject"]},
+    "D-C38-complete-md5-not-forwarded": {"Ops": ["CreateBucket", "CreateUpload", "UploadPart", "CompleteUpload"], "MaxClock": "4",
+                                         "CkSums": '{"none", "md5bad"}'},
     "D-C38-transition-via-copy": {"Ops": ["CreateBucket", "PutObject", "Transition"]},
     "D-C38-expires-reserialised": {"Ops": ["CreateBucket", "PutObject"]},
     "D-C38-put-no-version-id": {"Ops": ["CreateBucket", "PutVersioning", "PutObject"]},
